@@ -330,9 +330,9 @@ pub fn rough_class(_t: &Table, q: &Query) -> u32 {
     let nk = q.keys.len();
     let hcols: Vec<usize> = q.having.as_ref().map(cols_of).unwrap_or_default();
     let expr_key = |i: &usize| *i < nk && !matches!(q.keys[*i], Expr::Col(_));
-    if hcols.iter().any(expr_key) { return 6; }
+    if hcols.iter().any(expr_key) { return 10; }
     let bad = |i: &usize| *i >= nk && matches!(q.aggs.get(*i - nk), Some((f, e)) if *f != AggFn::CountStar && !matches!(e, Expr::Col(_)));
-    if hcols.iter().any(bad) || (q.sel.iter().any(expr_key) && q.sel.iter().any(bad)) { return 5; }
+    if hcols.iter().any(bad) || (q.sel.iter().any(expr_key) && q.sel.iter().any(bad)) { return 9; }
     0
 }
 
